@@ -111,10 +111,10 @@ add("C17",
     TOY + " with DH shapes (4,4) and (5,3); " + HOOK, [TOY], {"quick": "XX both roles (end, before s), NK start, NN end, IK after message 1", "thorough": "+ IK/KK/X/N responder end"}, ["real P-256 point encoding (native demo in replay/tests/defects.rs)"],
     ["HandshakeState::get_remote_static", "TransportState::{new,get_remote_static}", "StatelessTransportState::{new,get_remote_static}"] + FN_HS, ["toy DH"])
 add("C18",
-    "Part (a), decided: snow's default Hash::hmac and Hash::hkdf trait methods equal RFC 2104 HMAC and the Noise HKDF (1/2/3 outputs, untouched outputs stay untouched) for every key of length 0..=block and symbolic data, over a toy compression function with the real shapes (32/64, 64/128). Part (b) (real ChaChaPoly / AES-GCM wrappers: nonce layout, round trip) lives in harness-real when present. NOT claimed: that SHA-2/BLAKE2/ChaCha20/Poly1305/AES/GHASH/X25519/P-256 themselves match their standards (third-party code; 64-round compression functions and field multiplication over symbolic data do not finish) - those rest on the crates' own test vectors and on the repository's vector tests.",
+    "Part (a), decided: snow's default Hash::hmac and Hash::hkdf trait methods equal RFC 2104 HMAC and the Noise HKDF (1/2/3 outputs, untouched outputs stay untouched) for every key of length 0..=block and symbolic data, over a toy compression function with the real shapes (32/64, 64/128). Part (b), thorough tier, harness-real: snow's real CipherChaChaPoly / CipherXChaChaPoly / CipherAesGcm wrappers vs an independent call of the upstream AEAD with the Noise nonce encoding written from the specification - AES-GCM: body and tag for a fully SYMBOLIC 64-bit nonce; ChaChaPoly / XChaChaPoly: the body (ChaCha20 keystream block 1, which pins all 96 / 192 nonce bits) for a fully symbolic nonce, the tag for one fixed nonce with eight distinct bytes and symbolic plaintext / associated data (a symbolic nonce makes the Poly1305 key symbolic and the tag comparison a multiplier miter that does not finish in 60 min); ChaChaPoly decrypt inverts encrypt for a fixed nonce, symbolic plaintext. NOT claimed: that SHA-2/BLAKE2/ChaCha20/Poly1305/AES/GHASH/X25519/P-256 themselves match their standards (third-party code; 64-round compression functions and field multiplication over symbolic data do not finish) - those rest on the crates' own test vectors and on the repository's vector tests.",
     "toy compression function with real block/output shapes; reference HMAC/HKDF written from RFC 2104 and the Noise specification.",
-    ["SHashDefaultKdf (toy hash, snow's default hmac/hkdf)"], {"quick": "hash 32 / block 64: hmac key 0..=64, data 0..=3; hkdf 2 and 3 outputs, input 0/4/32 bytes", "thorough": "+ 64/128 shape, 1 output"},
-    ["standards conformance of third-party primitives", "DH key-pair distinctness", "ring backend (FFI)", "AD/plaintext longer than a few bytes through real AEADs"], ["Hash::hmac (default)", "Hash::hkdf (default)"], ["toy compression function"])
+    ["SHashDefaultKdf (toy hash, snow's default hmac/hkdf)"], {"quick": "hash 32 / block 64: hmac key 0..=64, data 0..=3; hkdf 2 and 3 outputs, input 0/4/32 bytes", "thorough": "+ 64/128 shape, 1 output; real AEAD wrappers: 1-byte plaintext, 0-1 bytes of associated data, nonce symbolic (64 bits) or fixed as stated; unwind 70"},
+    ["standards conformance of third-party primitives", "DH key-pair distinctness", "ring backend (FFI)", "AD/plaintext longer than a few bytes through real AEADs"], ["Hash::hmac (default)", "Hash::hkdf (default)", "(thorough) resolvers::default::{CipherChaChaPoly,CipherXChaChaPoly,CipherAesGcm}::{encrypt,decrypt} over the RustCrypto soft backends"], ["toy compression function", "portable (soft) backends of the RustCrypto crates forced by cfg; zeroize's optimisation barrier stubbed"])
 add("C19",
     "snow's own layers never touch the caller's payload buffer when authentication fails: handshake read with the rejection at the first or second decryption, stateful and stateless transport reads, symbolic message bytes and buffer sizes (exact and larger) - buffer byte-identical before and after the Err. The cipher is an oracle that, like the built-in verify-then-decrypt backends, leaves its output untouched when rejecting. NOT claimed: the behaviour of ring's in-place open (FFI, not encodable).",
     ORACLE + "; " + HOOK, [ORACLE], {"quick": "NN r1, XX r1 (both fields), both transport kinds; payload <= 4 / 24 bytes"}, ["ring backend", "what RustCrypto's decrypt_in_place_detached leaves in `out` on failure (verify-before-decrypt in the upstream crates; harness-real when present)"],
